@@ -3,4 +3,4 @@ import enginecheck as ec
 from props import engcommon
 LEVEL = 'proof'; TRUSTED = engcommon.TRUSTED_ENGINE; ASSUMPTIONS = engcommon.ASSUMPTIONS_ENGINE
 def run(ctx):
-    engcommon.run_engine_property(ctx, 'C05', [('failure', lambda h, st, b, prev: ec.oracle_c05(h, st, b, prev[1]))], faults=0.7, feat=dict(dyndep=0.2))
+    engcommon.run_engine_property(ctx, 'C05', plan_accept=600, oracles=[('failure', lambda h, st, b, prev: ec.oracle_c05(h, st, b, prev[1]))], faults=0.7, feat=dict(dyndep=0.2))
